@@ -186,7 +186,9 @@ func (m *Machine) ensureInit(pkg *ssa.Package) {
 	}
 	init := pkg.Func("init")
 	if init != nil && init.Blocks != nil {
+		m.initDepth++
 		m.callNested(init, nil)
+		m.initDepth--
 	}
 	m.pkgState[pkg] = 2
 }
